@@ -116,6 +116,10 @@ def m_array(I, e, args, kws):
     else:
         out.unit, out.frame, out.sign, out.shape = f.unit, f.frame, f.sign, (f.shape if x.items is None and x.tag("kind") != "list" else None)
         keep(out, f, *LIN_TAGS)
+    lo = x.tag("listof")
+    if lo is not None and lo.tag("product_of") is not None:
+        out.shape = Shape([None, as_dim(lo.tag("product_of")[1])])
+        out.tags["ndim"] = 2
     rep = x.tag("n_repeat")
     if rep is not None and el is not None:
         d = as_dim(rep)
@@ -937,6 +941,11 @@ def m_det(I, e, args, kws):
     out = mk(args, fresh="FRESH", tags={"kind": "ndarray"})
     if A.shape is not None and len(A.shape.axes) >= 2:
         out.shape = Shape(A.shape.axes[:-2], A.shape.ell)
+    # det of an n×n matrix of unit u has unit u^n: an opaque, scale-dependent dimension unless u is dimensionless
+    if A.unit == ONE:
+        out.unit = ONE
+    elif isinstance(A.unit, dict):
+        out.unit = {"det[" + ustr(A.unit) + "]": 1}
     return out
 
 
